@@ -54,9 +54,26 @@ class Holder:
         return _impl(*args)
 
 
+def undecorated(*args):            # module-level; what a functools.wraps wrapper below is named after.  Must never be called.
+    LOG.append(("UNDECORATED-FUNCTION-CALLED",))
+    import celpy.celtypes as ct
+    return ct.IntType(-1)
+
+
 def make_callable(kind):
     if kind == "module-def":
         return globals()["f"]
+    if kind == "wraps-wrapper":
+        # a decorated host function: the wrapper carries __module__ / __qualname__ of the function it wraps
+        @functools.wraps(undecorated)
+        def wrapper(*args):
+            return _impl(*args)
+        wrapper.__name__ = "f"      # the name it is listed under; __qualname__ stays that of the wrapped function
+        return wrapper
+    if kind == "exec-defined":
+        ns = {"__name__": "module_that_cannot_be_imported", "_impl": _impl}
+        exec("def f(*args):\n    return _impl(*args)\n", ns)
+        return ns["f"]
     if kind == "main-def":
         main = sys.modules["__main__"]
 
@@ -86,7 +103,7 @@ def _closure():
     return f
 
 
-KINDS = ["module-def", "main-def", "nested-def", "lambda", "callable-object", "partial", "bound-method"]
+KINDS = ["module-def", "main-def", "nested-def", "lambda", "callable-object", "partial", "bound-method", "wraps-wrapper", "exec-defined"]
 STYLES = ["dict", "list"]
 BEHAVIOURS = ["value", "returns-error", "raises-ValueError", "raises-TypeError", "raises-CELEvalError", "raises-KeyError"]
 
@@ -280,7 +297,7 @@ def run(ctx):
         ctx.run_shards(shard, [rk])
     ctx.part.sample({"shapes": [s for s, _ in SHAPES], "styles": STYLES, "callable_kinds": KINDS, "behaviours": BEHAVIOURS})
     ctx.rule = ("every call shape (0-3 arguments, function and method form, nested, in +, in map, beside || / &&, in ?:, in the range of each macro, beside a variable or macro variable of the same name) x supplying style (dict, list) x callable kind (module-level def, def in __main__, closure, lambda, "
-                "callable object, functools.partial, bound method) x behaviour (value, returned CELEvalError, raised ValueError / TypeError / CELEvalError / KeyError) x runner; plus built-in override scope in every program order and unbound names; "
+                "callable object, functools.partial, bound method, functools.wraps wrapper of another function, function defined by exec in a namespace that is no module) x behaviour (value, returned CELEvalError, raised ValueError / TypeError / CELEvalError / KeyError) x runner; plus built-in override scope in every program order and unbound names; "
                 "a case is one program evaluation whose outcome AND call log are compared; `int || false` is counted, not compared")
     ctx.assumptions = ["arguments are small ints; evaluation order between sibling call sites is not asserted (counts only)"]
 
